@@ -186,7 +186,46 @@ fn gen_prefix(g: &mut Gen, high_extreme_ok: bool) -> Vec<u64> {
         .collect()
 }
 
+/// a distribution that validation rejects (used only inside machines: if machine
+/// validation lets it through anywhere, running that machine must still not crash)
+fn rejected_dist(g: &mut Gen) -> Dist {
+    for _ in 0..200 {
+        let bad = |g: &mut Gen| -> f64 {
+            *g.pick(&[f64::NAN, f64::INFINITY, f64::NEG_INFINITY, -1.0, 0.0, 1e300, -1e300, 2.0, 1e43])
+        };
+        let dt = match g.below(11) {
+            0 => {
+                let a = bad(g);
+                DistType::Uniform { low: a, high: if g.bool() { a - 1.0 } else { bad(g) } }
+            }
+            1 => DistType::Normal { mean: bad(g), stdev: bad(g) },
+            2 => DistType::SkewNormal { location: bad(g), scale: bad(g), shape: bad(g) },
+            3 => DistType::LogNormal { mu: bad(g), sigma: bad(g) },
+            4 => DistType::Binomial { trials: *g.pick(&[2_000_000_000u64, u64::MAX, 10]), probability: *g.pick(&[1e-12, 2.0, -0.5, f64::NAN]) },
+            5 => DistType::Geometric { probability: *g.pick(&[1e-12, 2.0, -0.5, f64::NAN]) },
+            6 => DistType::Pareto { scale: bad(g), shape: bad(g) },
+            7 => DistType::Poisson { lambda: *g.pick(&[f64::INFINITY, 1e43, -1.0, 0.0, f64::NAN]) },
+            8 => DistType::Weibull { scale: bad(g), shape: bad(g) },
+            9 => DistType::Gamma { scale: bad(g), shape: bad(g) },
+            _ => DistType::Beta { alpha: bad(g), beta: bad(g) },
+        };
+        let d = Dist::new(dt, 0.0, 0.0);
+        if d.validate().is_err() {
+            return d;
+        }
+    }
+    Dist::new(DistType::Uniform { low: 2.0, high: 1.0 }, 0.0, 0.0)
+}
+
 fn gen_case(g: &mut Gen) -> Case {
+    if g.chance(0.08) {
+        return Case {
+            dist: rejected_dist(g),
+            prefix: vec![],
+            seed: g.u64(),
+            samples: 4,
+        };
+    }
     let dist = if g.chance(0.65) {
         wild_dist(g)
     } else {
@@ -230,13 +269,33 @@ fn consumer_machine(d: Dist, which: u64) -> Option<Machine> {
                 limit: Some(d),
             })
         }
-        _ => {
+        3 => {
             s.counter = (
                 Some(Counter::new_dist(Operation::Increment, d)),
                 Some(Counter::new_dist(Operation::Set, d)),
             );
         }
+        4 => s.counter = (Some(Counter::new_dist(Operation::Set, d)), None),
+        5 => s.counter = (None, Some(Counter::new_dist(Operation::Increment, d))),
+        6 => {
+            s.action = Some(Action::SendPadding {
+                bypass: true,
+                replace: true,
+                timeout: crate::mach::cdist(1.0),
+                limit: Some(d),
+            })
+        }
+        _ => {
+            s.action = Some(Action::BlockOutgoing {
+                bypass: true,
+                replace: false,
+                timeout: crate::mach::cdist(1.0),
+                duration: d,
+                limit: None,
+            })
+        }
     }
+    // None = the machine does not pass validation (expected for a rejected distribution)
     Machine::new(u64::MAX, 0.0, u64::MAX, 0.0, vec![s]).ok()
 }
 
@@ -262,10 +321,12 @@ impl C13 {
             stats.add("fault.rng_extreme_words", c.prefix.len() as u64);
         }
         stats.probe_if("binomial_inversion_path", is_binv(&c.dist));
-        // ---- direct sampling
+        let valid = c.dist.validate().is_ok();
+        stats.probe_if("rejected_distribution_offered_to_machine_validation", !valid);
+        // ---- direct sampling (only what validation accepts is in scope)
         let mut rng = SimRng::new(&spec);
         let mut max_words = 0;
-        for i in 0..c.samples {
+        for i in 0..(if valid { c.samples } else { 0 }) {
             rng_reset(WORD_BUDGET);
             let r = catch_sut(|| c.dist.sample(&mut rng));
             let w = rng_words();
@@ -297,10 +358,16 @@ impl C13 {
         }
         stats.max("rng_words_per_sample", max_words);
         // ---- through the framework's consumers
-        for which in 0..4u64 {
+        for which in 0..8u64 {
             let Some(m) = consumer_machine(c.dist, which) else {
+                stats.probe_if("machine_validation_rejected_bad_distribution", !valid);
                 continue;
             };
+            if !valid {
+                // machine validation let a rejected distribution through: it is now a
+                // 'machine that passed validation' and must not crash the framework
+                stats.inc("rejected_distribution_accepted_inside_machine");
+            }
             let rng = SimRng::new(&spec);
             rng_reset(WORD_BUDGET * 4);
             let r = catch_sut(|| {
@@ -348,7 +415,7 @@ impl C13 {
         h.bytes(&bincode::serialize(&c.dist).unwrap());
         h.u64(c.prefix.len() as u64);
         h.u64(c.prefix.first().copied().unwrap_or(7));
-        if !c.prefix.is_empty() {
+        if !c.prefix.is_empty() && valid {
             stats.shapes.insert(h.0);
         }
         v
